@@ -404,6 +404,9 @@ func c10Script(q *c10Req) c10Run {
 			return c10Run{Class: "disp-error", Code: 1}
 		}
 		r := c10Run{Dur: int(q.SleepMs)}
+		if q.SleepMs < 0 {
+			r.Dur = 0 // a barrier, not a duration: the calls of a group leave together, at once
+		}
 		switch q.Kind {
 		case c10KTarsErr:
 			r.Class, r.Code, r.Msg = "impl-error", q.Code, q.Msg
@@ -1179,6 +1182,51 @@ func c10GenBurstLarge(rng *rand.Rand, cfg c10Cfg, udp bool, tier string, inModel
 	return s
 }
 
+// one round of a burst: 8-24 requests over four connections whose handlers leave the implementation in lock step (a
+// barrier in the servant, as many at a time as there are workers), with responses of very different sizes in flight
+// together - a few bytes next to several kilobytes, alternating - so that a reply framed, written or recycled together
+// with another one shows a foreign head or a stale tail. Many such rounds run side by side.
+var c10BarrierGroup int32
+
+func c10GenBurstRound(rng *rand.Rand, cfg c10Cfg, udp bool, tier string) c10Scn {
+	s := c10Scn{Cfg: cfg, UDP: udp, Kind: "burst-round", Conns: 4, Chunks: []int{8192}, NoModel: true}
+	n := 8 + rng.Intn(3)
+	if cfg.Pool == 0 {
+		n = 16 + rng.Intn(9) // more goroutines than processors leave the barrier together
+		if udp {
+			n = 12 + rng.Intn(5)
+		}
+	}
+	size := n
+	if cfg.Pool > 0 && cfg.Pool < n {
+		size = cfg.Pool
+	}
+	c10BarrierGroup++
+	ids := c10DistinctIDs(rng, n)
+	for i := 0; i < n; i++ {
+		q := c10GenReq(rng, cfg, ids[i])
+		q.Func = []string{"act", "mixed", "fetch"}[rng.Intn(3)]
+		q.Ver = []int16{c10VerTars, c10VerJSON, c10VerTars, c10VerTup}[rng.Intn(4)]
+		q.Kind = []int32{c10KOk, c10KTarsErr, c10KOk, c10KPlain}[rng.Intn(4)]
+		if q.Ver == c10VerTup {
+			q.Kind = c10KOk
+		}
+		q.PType = c10Normal
+		if (i+rng.Intn(2))%2 == 0 {
+			q.Msg = c10PatternMsg(q.ID, rng.Intn(9), q.Ver == c10VerJSON)
+		} else {
+			q.Msg = c10PatternMsg(q.ID, 2500+rng.Intn(3000), q.Ver == c10VerJSON)
+		}
+		q.Timeout, q.Ctx, q.Status = 0, nil, nil
+		if cfg.HT == 0 && size > 1 {
+			q.SleepMs = -(c10BarrierGroup%20000*100 + int32(size))
+		}
+		c10Encode(&q)
+		s.Reqs = append(s.Reqs, q)
+	}
+	return s
+}
+
 // a burst against a small job queue (queuecap 0/1/2, one or two workers) with an implementation that takes 40 ms: more
 // requests than workers + queue slots + 1 arrive faster than they are served. Every well-formed two-way request must
 // still be answered exactly once - with the implementation's result, or, for the few that carry a timeout of their own, a
@@ -1409,9 +1457,9 @@ func c10SmallQueueConfigs(tier string) []c10Cfg {
 
 func c10Gen(tier string, rng *rand.Rand) []c10Scn {
 	var out []c10Scn
-	nt, nu, nq, nr, ns, nh, no, nb, nbq := 8, 4, 3, 2, 2, 2, 2, 2, 4
+	nt, nu, nq, nr, ns, nh, no, nb, nbq, nbr := 8, 4, 3, 2, 2, 2, 2, 1, 4, 10
 	if tier == "thorough" {
-		nt, nu, nq, nr, ns, nh, no, nb, nbq = 90, 36, 12, 8, 8, 8, 10, 8, 12
+		nt, nu, nq, nr, ns, nh, no, nb, nbq, nbr = 90, 36, 12, 8, 8, 8, 10, 8, 12, 40
 	}
 	for _, cfg := range c10Configs(tier) {
 		for i := 0; i < nt; i++ {
@@ -1442,6 +1490,15 @@ func c10Gen(tier string, rng *rand.Rand) []c10Scn {
 				out = append(out, c10GenBurstLarge(rng, cfg, i%2 == 1, tier, false))
 			}
 			out = append(out, c10GenBurstLarge(rng, cfg, cfg.Pool%2 == 1, tier, true))
+		}
+		if cfg.Pool != 1 || cfg.HT > 0 { // one worker and no handle timeout: nothing is ever in flight together
+			rounds := nbr
+			if cfg.Pool == 0 && cfg.HT == 0 {
+				rounds = 4 * nbr // every handler is a goroutine of its own and writes itself: the most replies in flight together
+			}
+			for i := 0; i < rounds; i++ {
+				out = append(out, c10GenBurstRound(rng, cfg, i%3 == 2, tier))
+			}
 		}
 		if cfg.HT > 0 {
 			for i := 0; i < nr; i++ {
